@@ -8,6 +8,9 @@ pub mod c04;
 pub mod c05;
 pub mod c06;
 pub mod c07;
+pub mod c09;
+pub mod c10;
+pub mod c11;
 pub mod c12;
 pub mod c13;
 pub mod c14;
@@ -49,6 +52,9 @@ props! {
     "C05" => c05::C05,
     "C06" => c06::C06,
     "C07" => c07::C07,
+    "C09" => c09::C09,
+    "C10" => c10::C10,
+    "C11" => c11::C11,
     "C12" => c12::C12,
     "C13" => c13::C13,
     "C14" => c14::C14,
